@@ -22,7 +22,15 @@ pub fn run(ctx: &mut Ctx) {
         o.mmax = *rng.choose(&[8, 25, 50]);
         let fam = rng.usize(0, 9);
         let p = match fam {
-            0..=4 => gen::planted(&mut rng, &o).problem,
+            0..=4 => {
+                // one in five with "infinite" right-hand sides in nonnegative rows (dropped by the presolver
+                // when it is on, capped otherwise): the report must be about the rows that remain
+                let mut pl = gen::planted(&mut rng, &o);
+                if rng.bool(0.2) && crate::c01::plant_inf(&mut pl, &mut rng, bound) > 0 {
+                    ctx.bump("instances_with_infinite_bounds");
+                }
+                pl.problem
+            }
             5 | 6 => gen::primal_infeasible(&mut rng, &o).0,
             7 | 8 => gen::dual_infeasible(&mut rng, &o).0,
             _ => {
@@ -140,7 +148,12 @@ pub fn run(ctx: &mut Ctx) {
                     fails.push(("objective_not_nan".into(), json!({"obj_val": problem::fj(res.obj_val)})));
                 }
                 // residual figures (both kinds of status: figures describe the de-homogenised point)
-                let big = ev.res_p.max(ev.res_d) > 1e200;
+                // the oracle's own evaluation overflows when the returned point has entries beyond ~1e150
+                // (tau of order 1e-199 after hundreds of stalled iterations): no recomputation, no judgement
+                let big = !(ev.res_p.is_finite() && ev.res_d.is_finite()) || ev.res_p.max(ev.res_d) > 1e200;
+                if big {
+                    ctx.bump("residual_figures_not_recomputable_(overflow)");
+                }
                 if !big {
                     let tp = 1e-6 * ev.res_p.max(res.r_prim.abs()) + 16.0 * ev.slack_res_p + 1e-300;
                     let td = 1e-6 * ev.res_d.max(res.r_dual.abs()) + 16.0 * ev.slack_res_d + 1e-300;
